@@ -143,6 +143,17 @@ This time play a developer who EXTENDS the library and, while doing so, shifts e
 The new feature itself must work (show it in one line of the demo), the existing tests must stay green, and the property must
 break for EXISTING kinds of input that have nothing to do with the new feature. It must NOT repeat a site or mechanism listed
 above. Make sure the demo shows the violation through one of the public observables listed under "observe_at".""",
+    11: """Earlier rounds already covered a wide range of mechanisms (see the list above and: new enum members / parameters /
+overrides, over-correcting fixes, input-class shortcuts, falsy zeros, `or DEFAULT`, positional-argument shifts).
+This time play a developer doing a CLEAN-UP: removing what looks like dead code, a redundant check, a duplicated computation, a
+"legacy" branch, an unnecessary copy / sort / normalisation / type conversion, an `else` that "can never happen", a guard that
+"is already enforced upstream", a second pass that "does the same as the first" — where the removed piece was in fact needed for a
+specific class of valid inputs or call sequences. Also allowed: inlining a helper into its callers with a slight change in one of
+them, collapsing two branches that differ in a detail, replacing an explicit loop by a comprehension / builtin that drops a side
+condition, simplifying a boolean expression incorrectly (De Morgan, precedence, `a and b or c`).
+The clean-up must look like an improvement a reviewer would approve, keep the existing tests green, and break the property only
+for the specific class the removed piece served. It must NOT repeat a site or mechanism listed above.
+Make sure the demo shows the violation through one of the public observables listed under "observe_at".""",
 }
 
 TEMPLATE = """You are helping to measure how sensitive a verification effort is. You will SEED A BUG.
